@@ -286,6 +286,14 @@ class Screen(BaseScreen, RealTerminal):
         self._wait_for_input_ready(self._next_timeout)
         keys, raw = self.parse_input(None, None, self.get_available_raw_input())
 
+        if self._partial_codes:
+            # an incomplete sequence and no event loop to set an alarm on: give the rest complete_wait
+            # to arrive here, then decode what there is as it stands
+            self._wait_for_input_ready(self.complete_wait)
+            new_keys, new_raw = self.parse_input(None, None, self.get_available_raw_input(), wait_for_more=False)
+            keys += new_keys
+            raw += new_raw
+
         # Avoid pegging CPU at 100% when slowly resizing
         if keys == ["window resize"] and self.prev_input_resize:
             logger.debug('get_input: got "window resize" > 1 times. Enable throttling for resize.')
